@@ -38,9 +38,11 @@ func init() {
 	Registry["C12"] = func(c *Ctx) (int, error) {
 		return RunWire(c, &WireSpec{GenModule: "Gen_Wire", GenConsts: map[string]string{"OptMode": `"cover"`, "ValMode": `"first"`, "Muts": `"none"`}, GenInvs: []string{"Export"},
 			Op: "generate", JudgeProp: "C12", DevProps: []string{"C12"}, Level: "model_checking",
-			Rule: "programs = TLC-enumerated (field shape x context x generator option set), one package each; every accepted package is compiled alone with go build against /repo's bebop and iohelp; a program is non-trivial if its shape is a container or a user-defined type",
+			Rule:   "programs = TLC-enumerated (field shape x context x generator option set), one package each; every accepted package is compiled alone with go build against /repo's bebop and iohelp; a program is non-trivial if its shape is a container or a user-defined type",
 			Assume: []string{"the Go compiler is the oracle for 'compiles' (no specification stands in for it)", "TLC enumerates the program universe; the acceptance predicate and the known-uncompilable shape classes are TLA+ predicates"},
-			Nontrivial: func(s *wireSchema, cs *wireCase) bool { return strings.Contains(s.Tag, "<") || strings.Contains(s.Tag, ":") || !strings.Contains("bool byte uint8 uint16 int16 uint32 int32 uint64 int64 float32 float64 string guid date", s.Tag) }})
+			Nontrivial: func(s *wireSchema, cs *wireCase) bool {
+				return strings.Contains(s.Tag, "<") || strings.Contains(s.Tag, ":") || !strings.Contains("bool byte uint8 uint16 int16 uint32 int32 uint64 int64 float32 float64 string guid date", s.Tag)
+			}})
 	}
 }
 
@@ -56,7 +58,7 @@ func init() {
 			Nontrivial: func(s *wireSchema, cs *wireCase) bool { return string(cs.Want) != string(cs.V) }}
 		return RunWireParts(c, []*WireSpec{{GenModule: "Gen_Wire", GenConsts: map[string]string{"OptMode": `"cover"`, "ValMode": `"all"`, "Muts": `"none"`}, GenInvs: []string{"Export"},
 			Op: "codec", JudgeProp: "C09", DevProps: []string{"C09", "C12"}, Level: "model_checking",
-			Rule: "cases = TLC-enumerated (shape x context x value x option set: pairwise cover of the 2^5 sets in quick, all 32 in thorough), one generated package per (schema, option set); each schema is generated under the empty set, under all five options, and under a seed-rotating quarter (quick) or fifth (thorough) of the other sets; a seed-dependent 1/6 (quick) or 1/3 (thorough) of the values is executed per package, at least one each; non-trivial if the option set is not empty",
+			Rule:   "cases = TLC-enumerated (shape x context x value x option set: pairwise cover of the 2^5 sets in quick, all 32 in thorough), one generated package per (schema, option set); each schema is generated under the empty set, under all five options, and under a seed-rotating quarter (quick) or fifth (thorough) of the other sets; a seed-dependent 1/6 (quick) or 1/3 (thorough) of the values is executed per package, at least one each; non-trivial if the option set is not empty",
 			Assume: wireAssume,
 			CaseFilter: func(s *wireSchema, cs *wireCase) bool {
 				// packages: every schema under the empty set and under a seed-rotating third (quarter) of the other sets
@@ -89,8 +91,8 @@ func init() {
 			Nontrivial: func(s *wireSchema, cs *wireCase) bool { return len(cs.Enc) > 2 }}
 		return RunWireParts(c, []*WireSpec{{GenModule: "Gen_Wire", GenConsts: map[string]string{"OptMode": `"default"`, "ValMode": `"all"`, "Muts": `"none"`}, GenInvs: wireTheorems,
 			Op: "cuts", JudgeProp: "C06", DevProps: []string{"C06", "C07"}, Level: "model_checking",
-			Rule: "cases = TLC-enumerated (shape x context x value); for each, EVERY cut point 0 <= k < len(reference encoding) is fed to UnmarshalBebop and to DecodeBebop (exhaustive per value); PrefixIsError is model-checked on the ideal decoder for the same cuts; a case is non-trivial if its encoding has more than 2 bytes",
-			Assume: append([]string{"'out of proportion' is measured as TotalAlloc delta > 64*len(input)+64KiB; hangs by a 20s watchdog; the worker runs under ulimit -v"}, wireAssume...),
+			Rule:       "cases = TLC-enumerated (shape x context x value); for each, EVERY cut point 0 <= k < len(reference encoding) is fed to UnmarshalBebop and to DecodeBebop (exhaustive per value); PrefixIsError is model-checked on the ideal decoder for the same cuts; a case is non-trivial if its encoding has more than 2 bytes",
+			Assume:     append([]string{"'out of proportion' is measured as TotalAlloc delta > 64*len(input)+64KiB; hangs by a 20s watchdog; the worker runs under ulimit -v"}, wireAssume...),
 			CaseFilter: func(s *wireSchema, cs *wireCase) bool { return len(cs.Enc) <= 400 },
 			Nontrivial: func(s *wireSchema, cs *wireCase) bool { return len(cs.Enc) > 2 }}, opts})
 	}
@@ -104,9 +106,9 @@ func init() {
 		}
 		return RunWire(c, &WireSpec{GenModule: "Gen_Wire", GenConsts: map[string]string{"OptMode": `"default"`, "ValMode": vm, "Muts": `"layout"`},
 			GenInvs: []string{"SizeIsLen", "LayoutLen", "DecTotal", "Export"},
-			Op: "corrupt", JudgeProp: "C07", DevProps: []string{"C07"}, Level: "model_checking",
-			Rule: "inputs = TLC-generated structure-aware corruptions of reference encodings (every length/count field set to 0, 1, n+1, n-1, 2^20, 2^31, 2^31-1, 2^32-1; every index/terminator/discriminator byte and first byte of every scalar replaced; chunks removed/duplicated at element boundaries; trailing garbage), each fed to UnmarshalBebop and DecodeBebop; DecTotal is model-checked on the ideal decoder for the same inputs; non-trivial = every corrupted input (distinct from the valid encoding)",
-			Assume: append([]string{"'unbounded' is measured as TotalAlloc delta > 64*len(input)+64KiB, a 3 GB address-space limit, and a 20s watchdog per call"}, wireAssume...),
+			Op:      "corrupt", JudgeProp: "C07", DevProps: []string{"C07"}, Level: "model_checking",
+			Rule:       "inputs = TLC-generated structure-aware corruptions of reference encodings (every length/count field set to 0, 1, n+1, n-1, 2^20, 2^31, 2^31-1, 2^32-1; every index/terminator/discriminator byte and first byte of every scalar replaced; chunks removed/duplicated at element boundaries; trailing garbage), each fed to UnmarshalBebop and DecodeBebop; DecTotal is model-checked on the ideal decoder for the same inputs; non-trivial = every corrupted input (distinct from the valid encoding)",
+			Assume:     append([]string{"'unbounded' is measured as TotalAlloc delta > 64*len(input)+64KiB, a 3 GB address-space limit, and a 20s watchdog per call"}, wireAssume...),
 			CaseFilter: func(s *wireSchema, cs *wireCase) bool { return len(cs.Enc) <= 200 },
 			Nontrivial: func(s *wireSchema, cs *wireCase) bool { return true }})
 	}
@@ -116,12 +118,12 @@ func init() {
 	Registry["C08"] = func(c *Ctx) (int, error) {
 		evolve := &WireSpec{GenModule: "Gen_Evolve", GenInvs: []string{"IsExtension", "ForwardCompat", "Export"},
 			Op: "rfault", Errs: []string{"boom", "unexpected"}, JudgeProp: "C08", DevProps: []string{"C08"}, Level: "model_checking",
-			Rule: "reader failing at every byte offset while the OLDER schema version decodes a NEWER version's bytes (the path that skips unknown message fields), over the schema pairs of C04",
+			Rule:       "reader failing at every byte offset while the OLDER schema version decodes a NEWER version's bytes (the path that skips unknown message fields), over the schema pairs of C04",
 			Nontrivial: func(s *wireSchema, cs *wireCase) bool { return len(cs.Enc) > 2 }}
 		return RunWireParts(c, []*WireSpec{{GenModule: "Gen_Wire", GenConsts: map[string]string{"OptMode": `"default"`, "ValMode": `"all"`, "Muts": `"none"`}, GenInvs: wireTheorems,
 			Op: "faults", Errs: []string{"boom", "eof", "unexpected"}, JudgeProp: "C08", DevProps: []string{"C08"}, Level: "model_checking",
-			Rule: "cases = TLC-enumerated (shape x context x value); reader: for EVERY byte offset k < len the reader fails after k bytes with {custom error, io.EOF, io.ErrUnexpectedEOF} in the styles error-after-last-byte / error-with-last-bytes / one-byte-reads; writer: for EVERY call index k below the number of Write calls of a fault-free run the k-th Write fails (writing nothing / half); non-trivial if the encoding has more than 2 bytes",
-			Assume: wireAssume,
+			Rule:       "cases = TLC-enumerated (shape x context x value); reader: for EVERY byte offset k < len the reader fails after k bytes with {custom error, io.EOF, io.ErrUnexpectedEOF} in the styles error-after-last-byte / error-with-last-bytes / one-byte-reads; writer: for EVERY call index k below the number of Write calls of a fault-free run the k-th Write fails (writing nothing / half); non-trivial if the encoding has more than 2 bytes",
+			Assume:     wireAssume,
 			CaseFilter: func(s *wireSchema, cs *wireCase) bool { return len(cs.Enc) <= 400 },
 			Nontrivial: func(s *wireSchema, cs *wireCase) bool { return len(cs.Enc) > 2 }}, evolve})
 	}
@@ -131,9 +133,11 @@ func init() {
 	Registry["C05"] = func(c *Ctx) (int, error) {
 		return RunWire(c, &WireSpec{GenModule: "Gen_Wire", GenConsts: map[string]string{"OptMode": `"default"`, "ValMode": `"all"`, "Muts": `"stream"`}, GenInvs: wireTheorems,
 			Op: "stream", JudgeProp: "C05", DevProps: []string{"C05"}, Level: "model_checking",
-			Rule: "histories = TLC-enumerated sequences of 3 records per (shape x context x value) written back to back (reference bytes, and the real EncodeBebop); schedules = unfragmented + every cyclic cap pattern of length 1-2 (quick) / 1-3 (thorough) over {1,2,3,5} bytes, each greedy (reader holds the whole stream + trailing bytes: over-consumption shows) and starved (reader delivers nothing beyond the current record: asking beyond it is flagged); exhaustive Deliver schedules are model-checked in StreamCodec.tla; non-trivial if the first record has more than 2 bytes",
+			Rule:   "histories = TLC-enumerated sequences of 3 records per (shape x context x value) written back to back (reference bytes, and the real EncodeBebop); schedules = unfragmented + every cyclic cap pattern of length 1-2 (quick) / 1-3 (thorough) over {1,2,3,5} bytes, each greedy (reader holds the whole stream + trailing bytes: over-consumption shows) and starved (reader delivers nothing beyond the current record: asking beyond it is flagged); exhaustive Deliver schedules are model-checked in StreamCodec.tla; non-trivial if the first record has more than 2 bytes",
 			Assume: append([]string{"a Read issued when the current record is exhausted is what would block on a live connection"}, wireAssume...),
-			CaseFilter: func(s *wireSchema, cs *wireCase) bool { return len(cs.Enc) <= 200 && (c.Tier == "thorough" || (cs.Vi+cs.Sid+c.Seed)%2 == 0) },
+			CaseFilter: func(s *wireSchema, cs *wireCase) bool {
+				return len(cs.Enc) <= 200 && (c.Tier == "thorough" || (cs.Vi+cs.Sid+c.Seed)%2 == 0)
+			},
 			Nontrivial: func(s *wireSchema, cs *wireCase) bool { return len(cs.Enc) > 2 }})
 	}
 }
@@ -142,8 +146,8 @@ func init() {
 	Registry["C04"] = func(c *Ctx) (int, error) {
 		return RunWire(c, &WireSpec{GenModule: "Gen_Evolve", GenInvs: []string{"IsExtension", "ForwardCompat", "Export"},
 			Op: "decref", JudgeProp: "C04", DevProps: []string{"C04"}, Level: "model_checking",
-			Rule: "histories = TLC-enumerated pairs of schema versions (message Ev gains 1-2 fields with fresh higher indices of every leaf class; optionally the reader has deprecated a field the writer still sends) x nesting context {top level, struct field, array element, map value, message field, union branch, field of a union branch's struct/message} x values of the newer version (every subset of fields present); the newer version's reference bytes are decoded by UnmarshalBebop and DecodeBebop generated from the OLDER version; ForwardCompat is model-checked on the ideal decoder; non-trivial if the value carries a field unknown to the older version or deprecated there",
-			Assume: wireAssume,
+			Rule:       "histories = TLC-enumerated pairs of schema versions (message Ev gains 1-2 fields with fresh higher indices of every leaf class; optionally the reader has deprecated a field the writer still sends) x nesting context {top level, struct field, array element, map value, message field, union branch, field of a union branch's struct/message} x values of the newer version (every subset of fields present); the newer version's reference bytes are decoded by UnmarshalBebop and DecodeBebop generated from the OLDER version; ForwardCompat is model-checked on the ideal decoder; non-trivial if the value carries a field unknown to the older version or deprecated there",
+			Assume:     wireAssume,
 			Nontrivial: func(s *wireSchema, cs *wireCase) bool { return string(cs.Want) != string(cs.V) }})
 	}
 }
